@@ -10,10 +10,13 @@ LEVEL_TEXT = ("Proof: Coq theorems (for all glyph-name sets, glyphOrder lists an
               "sorted rest, each glyph once, rejects exactly the duplicate code points, maps cp->g iff g declares cp, splits BMP/non-BMP "
               "at the threshold read from the source, and satisfies the executable spec_C03. The model is tied to /repo by a "
               "correspondence run (function level and compiled TTF/OTF, both UFO libraries) evaluated in Coq with vm_compute; spec_C03 "
-              "is also evaluated directly on the implementation's observation.")
+              "is also evaluated directly on the implementation's observation. makeOfficialGlyphOrder and makeUnicodeToGlyphNameMapping are, "
+              "in addition, TRANSLATED from /repo's util.py on every run (harness/imp_from_source.py: an imperative fragment -- sets, lists, "
+              "dicts, nested for, continue, raise -- into state-passing Gallina, fail-closed) and the translation is PROVED equal to the hand "
+              "model, so the order / exactly-once / duplicate / sound-and-complete theorems are restated about the code as it reads now.")
 LEVEL_NOTE = ("Trusted: Coq kernel, hand-written model (validated by correspondence only on generated cases), AST constant reader, "
               "Python harness, fontTools cmap (de)compilation. UVS and maxp.numGlyphs are checked on the implementation only.")
-TECHNIQUE = "Coq proof (model |= spec, for all inputs) + vm_compute correspondence of model and spec against ufo2ft on generated fonts"
+TECHNIQUE = "Coq proof (model |= spec, for all inputs; two functions translated from source on every run and proved equal to the model) + vm_compute correspondence of model and spec against ufo2ft on generated fonts"
 IMPORTS = "From U2F Require Import Base.Prelude Order.GlyphOrder."
 RULE = ("function level: random (glyph-name set, glyphOrder list) pairs incl. duplicates, unknown names, '.notdef' "
         "present/absent, fed to ufo2ft.util.makeOfficialGlyphOrder and to the Gallina glyph_order; compile level: small "
